@@ -261,6 +261,12 @@ def check_case(case):
         if not (is_ld or is_st):
             cl.append("real:memory-operand-without-role")
             continue
+        if any(isinstance(o, MemoryOperand) and o is not memop
+               for o in so["source"] + so["destination"] + so["src_dst"]):
+            # push/pop/call: a hidden stack access besides the written memory operand (two data accesses: the
+            # property's "load and/or store micro-ops for its addressing mode" does not say which table row each gets)
+            cl.append("real:second-hidden-memory-access")
+            continue
         if regentry.port_pressure is None or isinstance(regentry.port_pressure, dict):
             cl.append("real:register-form-with-alternatives")
             continue
